@@ -776,6 +776,12 @@ class Analysis:
             k = self.as_poly(args[1]) if len(args) > 1 else None
             if p and k is not None:
                 return ("P", p[1], p[2] - k if fn.endswith("byte_sub") else p[2] + k, None)
+        if fn in ("core::slice::from_ref", "core::slice::from_mut") and len(args) == 1:
+            # a one-element slice over the referent
+            p = ptr()
+            if p:
+                cs.no_effects = True
+                return ("P", p[1], p[2], Poly.const(1))
         if fn in ("core::slice::from_raw_parts", "core::slice::from_raw_parts_mut",
                   "core::ptr::slice_from_raw_parts", "core::ptr::slice_from_raw_parts_mut"):
             p = ptr()
